@@ -1,98 +1,12 @@
 (** Dispatch table of the extracted correspondence driver: each model function wrapped
     as [val -> val].  The harness (harness/model.py) reads the ids and names from the
-    comments of [dispatch], so this file is the single registry. *)
-From SE Require Import Base Codecs Fat Stream Transcode Cue Names.
-From Coq Require Import Floats.PrimFloat Floats.SpecFloat Floats.FloatOps.
+    comments of the dispatch tables in coq/Driver*.v, so these files are the single registry.
+    Per-property tables live in DriverCxx.v ([dispatch_cxx : Z -> val -> option val], None for
+    an id they do not own) and are chained in [dispatch] below. *)
+From SE Require Import Base Codecs Fat Stream Transcode Cue Names DriverBase.
 
-(** floats travel as (kind sign mantissa exponent): kind 0 = finite (value = +-m*2^e,
-    m > 0), 1 = zero, 2 = infinity, 3 = nan *)
-Definition vfloat (f : float) : val :=
-  match Prim2SF f with
-  | S754_finite s m e => VL [VI 0; vbool s; VI (Z.pos m); VI e]
-  | S754_zero s => VL [VI 1; vbool s]
-  | S754_infinity s => VL [VI 2; vbool s]
-  | S754_nan => VL [VI 3]
-  end.
-Definition unfloat (v : val) : float :=
-  match v with
-  | VL [VI 0; VI s; VI (Zpos m); VI e] => SF2Prim (S754_finite (negb (s =? 0)) m e)
-  | VL [VI 1; VI s] => SF2Prim (S754_zero (negb (s =? 0)))
-  | VL [VI 2; VI s] => SF2Prim (S754_infinity (negb (s =? 0)))
-  | _ => SF2Prim S754_nan
-  end.
-
-Definition vnote (n : note) : val := VL [VI (degree n); vbool (sharp n); VI (octave n)].
-Definition unnote (v : val) : note :=
-  match v with
-  | VL [VI d; VI s; VI o] => {| degree := d; sharp := negb (s =? 0); octave := o |}
-  | _ => {| degree := 0; sharp := false; octave := 0 |}
-  end.
-Definition vpynum (p : pynum) : val :=
-  match p with PInt z => VL [VI 0; VI z] | PFloat f => VL [VI 1; vfloat f] end.
-Definition unpynum (v : val) : pynum :=
-  match v with
-  | VL [VI 0; VI z] => PInt z
-  | VL [VI 1; f] => PFloat (unfloat f)
-  | _ => PInt 0
-  end.
-
-Definition vlink (l : link) : val := VL [VI (lnext l); vbool (lend l)].
-Definition unlink (v : val) : link :=
-  match v with VL [VI n; VI e] => {| lnext := n; lend := negb (e =? 0) |} | _ => dlink end.
-Definition nth_arg (a : val) (n : nat) : val := nth n (unVL a) (VI 0).
-
-Fixpoint unview (fuel : nat) (v : val) : view :=
-  match fuel with
-  | O => Base
-  | S f =>
-    match v with
-    | VL [VI 1; k; VI size; sub] =>
-        let kd := match k with
-                  | VL [VI 1; VI off] => KOff off
-                  | VL [VI 2; VI L; VL [VI 0]] => KSect L MPlain
-                  | VL [VI 2; VI L; VL [VI 1; secs]] => KSect L (MChain (unVLZ secs))
-                  | VL [VI 2; VI L; VL [VI 2]] => KSect L MMdf
-                  | VL [VI 3; VI w] => KRev w
-                  | _ => KWrap
-                  end in
-        V kd size (unview f sub)
-    | _ => Base
-    end
-  end.
-Definition unop (v : val) : op :=
-  match v with
-  | VL [VI 0; VI off; VI wh] => OSeek off wh
-  | VL [VI 2; VI n] => ORead n
-  | _ => OTell
-  end.
-Definition vout (o : out) : val :=
-  match o with
-  | OutPos p => VL [VI 0; VI p]
-  | OutBytes b => VL [VI 1; vlistZ b]
-  | OutErr e => VL [VI 2; VI (exn_code e)]
-  | OutFuel => VL [VI 3]
-  end.
-
-Definition unsrc (v : val) : src :=
-  match v with
-  | VL [b; VI w; VI c; VI big] => {| sbytes := unVLZ b; swidth := w; schans := c; sbig := negb (big =? 0) |}
-  | _ => {| sbytes := []; swidth := 1; schans := 1; sbig := false |}
-  end.
-
-Definition vopt (o : option (list Z)) : val := match o with None => VL [VI 0] | Some s => VL [VI 1; vlistZ s] end.
-Definition vtrack (t : ctrack) : val :=
-  VL [VI (t_num t); vlistZ (t_mode t); vopt (t_title t);
-      VL (map (fun i => VL [VI (ix_num i); VI (ix_min i); VI (ix_sec i); VI (ix_frm i)]) (t_indices t))].
-Definition vcue (c : cue) : val := VL [vlistZ (c_bin c); VL (map vtrack (c_tracks c))].
-Definition vwindow (w : window) : val :=
-  VL [vopt (w_title w); VI (w_number w); VI (w_off w); VI (w_size w); VI (w_samples w)].
-Definition unlines (v : val) : list (list Z) := map unVLZ (unVL v).
-
-Definition unelems (v : val) : list (list Z * bool) :=
-  map (fun e => (unVLZ (nth_arg e 0), negb (unVI (nth_arg e 1) =? 0))) (unVL v).
-Definition vnames (l : list (list Z)) : val := VL (map vlistZ l).
-
-Definition dispatch (id : Z) (a : val) : val :=
+Definition dispatch_core (id : Z) (a : val) : option val :=
+  Some (
   match id with
   | 101 (* fast_akai_to_ascii_byte *) => vres VI (fast_akai_to_ascii_byte (unVI a))
   | 102 (* convert_byte_to_akai *) => vres VI (convert_byte (unVI a) ASCII AKAI)
@@ -150,4 +64,16 @@ Definition dispatch (id : Z) (a : val) : val :=
   | 608 (* path_tokens *) => vnames (path_tokens (unVLZ a))
   | 609 (* sanitize_token *) => vlistZ (sanitize_token (negb (unVI (nth_arg a 0) =? 0)) (unVLZ (nth_arg a 1)))
   | _ => vbad
+  end).
+
+
+Definition owns_core (id : Z) : bool := id <? 700.
+Definition exts : list (Z -> val -> option val) := [].
+Fixpoint first_some (l : list (Z -> val -> option val)) (id : Z) (a : val) : val :=
+  match l with
+  | [] => vbad
+  | f :: t => match f id a with Some v => v | None => first_some t id a end
   end.
+Definition dispatch (id : Z) (a : val) : val :=
+  if owns_core id then match dispatch_core id a with Some v => v | None => vbad end
+  else first_some exts id a.
